@@ -5,13 +5,16 @@ import subprocess
 from framework import CACHE, ENV, Lock
 
 PROP = "C01"
-LEAN_MODS = ["Cte.Props.C01"]
+LEAN_MODS = ["Cte.Props.C01", "Cte.Props.C01Extra"]
 HARNESS = "c01"
 N = {"quick": 0, "thorough": 0}
 CORRESPONDENCES = ["hulc2model as a process = Cli.cliMain on the same argument list with the library outcome observed in-process: exit status and "
                    "standard output (exactly the JSON + newline / empty)",
                    "thor FILE -o P [-v]* as a process = Cli.thorMain: exit status, content of P afterwards (model JSON whatever P held before), "
-                   "whether anything goes to standard output"]
+                   "whether anything goes to standard output",
+                   "fix_ecdata_from_extra (what --use-extra adds to the converted model) = Extra.wallOverrides / winOverrides / extraNames on the "
+                   "same walls, windows, computed values and parsed result files: U overrides by wall id, F_sh;obst overrides by window id, the "
+                   "names in `extra`, or the error when the .tbl lacks a partition"]
 GENERATED_OBLIGATIONS = ["Cte/Gen/StdoutSites.lean regenerated from the sources of hulc, bemodel, climate, hulc2model (repo_lib_silent re-checked)"]
 BINDIR = os.path.join(CACHE, "target-repo", "debug")
 HARNESS_ARGS = {"quick": {"bindir": BINDIR}, "thorough": {"bindir": BINDIR}}
@@ -49,6 +52,29 @@ def compare(case, out):
         got = "empty" if i["stdout_len"] == 0 else ("model-json-newline" if i.get("stdout_is_exactly_library_json") else "other")
         if got != out["stdout"]:
             res.append((CORRESPONDENCES[0], f"{case['label']}: standard output is {got}, automaton says {out['stdout']}"))
+    elif case.get("op") == "fixextra":
+        _stats["fix_extra_runs_compared"] += 1
+        fam = CORRESPONDENCES[2]
+        if "extra" not in out:
+            return [(fam, f"model gave {str(out)[:120]}")]
+        if i["outcome"] == "err":
+            if out["extra"] is not None:
+                res.append((fam, f"{case['label']}: implementation fails ({i['msg'][:60]}), the model lists {len(out['extra'])} names"))
+        elif i["outcome"] == "ok":
+            if out["extra"] is None:
+                res.append((fam, f"{case['label']}: implementation succeeds, the model says a partition is missing from the .tbl"))
+            else:
+                if i.get("overrides_before", 0) == 0:
+                    for key in ("wall_overrides", "win_overrides"):
+                        got = sorted((a, round(b, 4)) for a, b in i[key])
+                        want = sorted((a, round(b, 4)) for a, b in out[key])
+                        if got != want:
+                            d = [x for x in got if x not in want][:2] + [x for x in want if x not in got][:2]
+                            res.append((fam, f"{case['label']}: {key}: implementation {len(got)}, model {len(want)}; differing entries {d}"))
+                if list(i["extra"] or []) != list(out["extra"]):
+                    res.append((fam, f"{case['label']}: extra list: implementation {len(i['extra'] or [])} names, model {len(out['extra'])}"))
+                _stats["fix_extra_wall_overrides"] += len(i["wall_overrides"])
+                _stats["fix_extra_win_overrides"] += len(i["win_overrides"])
     elif case.get("op") == "thor":
         _stats["thor_runs_compared_with_automaton"] += 1
         if "status" not in out:
@@ -70,7 +96,10 @@ def oracle(case):
     i = case["impl"]
     if "spawn_error" in i:
         return [{"what": f"cannot run the tool: {i['spawn_error']}", "key": {"class": "spawn"}}]
-    if case["kind"] == "tool-noargs":
+    if case["kind"] == "fixextra":
+        if i.get("outcome") == "panic":
+            v.append({"what": f"{case['label']}: the library conversion with result files crashes: {i.get('msg', '')[:80]}", "key": {"class": "fixextra-panic"}})
+    elif case["kind"] == "tool-noargs":
         if i["status"] in (0, None) or i["stdout_len"] != 0:
             v.append({"what": f"without arguments the tool exits with {i['status']} and writes {i['stdout_len']} bytes to standard output", "key": {"class": "no-arguments"}})
     elif case["kind"] == "tool":
